@@ -23,21 +23,23 @@ Definition ever_step (s : fset) (o : op) : fset :=
   match o with Ins p => fadd p s | Rem _ => s end.
 Definition ever_inserted (ops : list op) : fset := fold_left ever_step ops [].
 
-(* index_of s: name -> path -> pre *)
-Definition spec_name (s : fset) (name f : list N) : option (list N) :=
-  if fmem f s && beq_bytes (last_seg f) name then Some (complete_pre f) else None.
-Definition spec_pre (s : fset) (p f : list N) : option (list N) :=
+(* index_of s: name -> path -> pre. sfx says what "the suffix" of a name is (Model/FileIndex.v suffix_index):
+   false = everything from the first '.', true = the final ".lua" (any other file type: from the first '.' of the
+   file name) *)
+Definition spec_name (sfx : bool) (s : fset) (name f : list N) : option (list N) :=
+  if fmem f s && beq_bytes (last_seg f) name then Some (complete_pre_fx sfx f) else None.
+Definition spec_pre (sfx : bool) (s : fset) (p f : list N) : option (list N) :=
   if fmem f s then
-    match index_byte dot (last_seg f) with
-    | Some i => if beq_bytes (firstn i (last_seg f)) p then Some (complete_pre f) else None
+    match suffix_index sfx (last_seg f) with
+    | Some i => if beq_bytes (firstn i (last_seg f)) p then Some (complete_pre_fx sfx f) else None
     | None => None
     end
   else None.
 
 (* the index state st answers exactly like index_of s *)
-Definition index_is (st : idx) (s : fset) : Prop :=
-  forall name f, aget f (get_name_map st name) = spec_name s name f
-              /\ aget f (get_pre_map st name) = spec_pre s name f.
+Definition index_is (sfx : bool) (st : idx) (s : fset) : Prop :=
+  forall name f, aget f (get_name_map st name) = spec_name sfx s name f
+              /\ aget f (get_pre_map st name) = spec_pre sfx s name f.
 
 (* guards / class predicates of the history part *)
 (* absolute path: starts with '/' (every path the server handles does) *)
@@ -106,6 +108,19 @@ Definition conforms (m s : routcome) : bool :=
   && subset_bytes (r_resolved m) (r_resolved s) && Bool.eqb (is_nil (r_resolved m)) (is_nil (r_resolved s)).
 
 (* guards / class predicates of the resolution part *)
+(* every workspace file is a ".lua" file: the domain of the documented mapping (true of every server without
+   file-type associations: the directory scan takes *.lua only) *)
+Definition all_lua (files : fset) : bool := forallb (is_suffix lua_ext) files.
+Definition non_lua (files : fset) : bool := negb (all_lua files).
+
+(* the six module names that occur inside the text "lua" (l, lu, lua, u, ua, a): strings.LastIndex finds them inside
+   the suffix of name.lua, so the score of a candidate is computed from another place than for name.lua; excluded by
+   C18_features_agree_ties (ties between equally named modules) *)
+Definition lua_overlap (mp : list N) : bool :=
+  existsb (beq_bytes mp) [[108]; [108; 117]; [108; 117; 97]; [117]; [117; 97]; [97]].
+
+(* classes of the findings repaired by fixes/C18-dotted-path.diff and fixes/C18-dofile-no-suffix.diff (kept for the
+   theorems about the code before them) *)
 (* the only '.' of the whole path is the one of a final ".lua" *)
 Definition simple_lua (g : list N) : bool :=
   match index_byte dot g with Some i => beq_bytes (skipn i g) lua_ext | None => false end.
